@@ -34,6 +34,8 @@ pub struct HistStats {
 }
 
 pub struct HistOpts {
+    /// known-finding ids whose trigger shapes the expression generator must avoid
+    pub avoid: Vec<String>,
     pub max_ops: usize,
     /// probability weight of failing steps (C07c uses a high one)
     pub fail_weight: u32,
@@ -44,20 +46,33 @@ pub struct HistOpts {
 const FN_NAMES: &[&str] = &["f0", "f1", "f2", "f3", "f4"];
 const VAR_NAMES: &[&str] = &["v0", "v1", "v2"];
 const CTR_NAMES: &[&str] = &["c0", "c1"];
+/// instances of one combinator lambda, each capturing two function *values*
+const COMPOSED_NAMES: &[&str] = &["h0", "h1", "h2"];
 
 fn one(t: Top) -> HStep {
     HStep::Piece(Program { forms: vec![t] })
 }
 
 pub fn generate(data: &[u16], o: &HistOpts) -> (History, HistStats) {
-    let gopts = GenOpts { errors: false, callcc: false, winds: false, handlers: false, output: false, heap: false, gc_points: false, max_depth: 3, top_forms: 1, avoid: vec![] };
+    let gopts = GenOpts { errors: false, callcc: false, winds: false, handlers: false, output: false, heap: false, gc_points: false, max_depth: 3, top_forms: 1, avoid: o.avoid.clone() };
     let mut g = Gen::new(data, gopts);
     let mut steps: Vec<HStep> = vec![];
     let mut st = HistStats::default();
     let mut junk_counter = 0usize;
+    // a closure factory: every (compose2 f g) is a new instance of the same lambda whose captures
+    // may be the only thing keeping an old version of f or g (and what those refer to) alive
+    steps.push(one(Top::Define(
+        "compose2".into(),
+        lambda(&["f", "g"], Body::single(lambda(&["x"], Body::single(call(var("f"), vec![call(var("g"), vec![var("x")])]))))),
+    )));
     let nops = 3 + g.c.below(o.max_ops.max(4) - 3);
     for _ in 0..nops {
-        let fns: Vec<VarInfo> = g.scope.iter().filter(|v| matches!(v.ty, Ty::Proc { n: 1, .. }) && FN_NAMES.contains(&v.name.as_str())).cloned().collect();
+        let fns: Vec<VarInfo> = g
+            .scope
+            .iter()
+            .filter(|v| matches!(v.ty, Ty::Proc { n: 1, .. }) && (FN_NAMES.contains(&v.name.as_str()) || COMPOSED_NAMES.contains(&v.name.as_str())))
+            .cloned()
+            .collect();
         let vars: Vec<VarInfo> = g.scope.iter().filter(|v| v.ty == Ty::Int).cloned().collect();
         let w = [
             10,                                   // 0 define / redefine a function
@@ -69,6 +84,7 @@ pub fn generate(data: &[u16], o: &HistOpts) -> (History, HistStats) {
             if o.bulk { 2 } else { 0 },           // 6 many fresh definitions
             3,                                    // 7 counter closure (live mutable state)
             8,                                    // 8 probe: call everything
+            if fns.is_empty() { 0 } else { 6 },   // 9 a composed function (closure capturing function values)
         ];
         match g.c.weighted(&w) {
             0 => {
@@ -177,6 +193,27 @@ pub fn generate(data: &[u16], o: &HistOpts) -> (History, HistStats) {
                 );
                 g.scope.push(VarInfo { name: name.clone(), ty: Ty::Proc { n: 0, rest: false, pure_: false }, mutable: false, global: true });
                 steps.push(one(Top::Define(name, def)));
+            }
+            9 => {
+                let name = COMPOSED_NAMES[g.c.below(COMPOSED_NAMES.len())].to_string();
+                if g.scope.iter().any(|v| v.name == name) {
+                    st.redefinitions += 1;
+                }
+                // the latest visible binding of each function name
+                let mut latest: Vec<VarInfo> = vec![];
+                for v in fns.iter().rev() {
+                    if v.name != name && !latest.iter().any(|x| x.name == v.name) {
+                        latest.push(v.clone());
+                    }
+                }
+                if latest.is_empty() {
+                    continue;
+                }
+                let a = latest[g.c.below(latest.len())].name.clone();
+                let b = latest[g.c.below(latest.len())].name.clone();
+                g.scope.retain(|v| v.name != name);
+                g.scope.push(VarInfo { name: name.clone(), ty: Ty::Proc { n: 1, rest: false, pure_: false }, mutable: false, global: true });
+                steps.push(one(Top::Define(name, app("compose2", vec![var(&a), var(&b)]))));
             }
             _ => {
                 st.probes += 1;
